@@ -259,7 +259,8 @@ def _run_if(ck, ob, st, s):
         # allocation failure check
         return
     if _mentions(cond, set(st.roles)):
-        raise AnalysisError("websocket_mask: data-dependent branch on the analysed variables (line %s) is not modelled" % C.line(s))
+        _run_fast_path(ck, ob, st, s, cond, then, els)
+        return
     # a configuration test (sizeof(...) >= 8): both outcomes must preserve the invariants
     before = copy.deepcopy(st.__dict__)
     _run_block(ck, ob, st, C.inner(then) if C.kind(then) == "CompoundStmt" else [then])
@@ -284,6 +285,50 @@ def _run_if(ck, ob, st, s):
     st.roles.update(a["roles"])
 
 
+def _success_return(block):
+    """The ReturnStmt ending ``block`` if it returns something other than NULL, else None."""
+    sts = C.inner(block) if C.kind(block) == "CompoundStmt" else [block]
+    if sts and C.kind(sts[-1]) == "ReturnStmt" and C.inner(sts[-1]) and not C.is_null_pointer(C.inner(sts[-1])[0]):
+        return sts[-1]
+    return None
+
+
+def _run_fast_path(ck, ob, st, s, cond, then, els):
+    """A branch on the payload variables: only an early *return* is modelled (a shortcut around the
+    normal processing).  Every shortcut that returns a value must come after the mask length test and
+    may only cover the empty payload with an empty result."""
+    dl = st.role("data_len")
+    branches = [(then, True)] + ([(els, False)] if els is not None else [])
+    handled = False
+    for blk, pol in branches:
+        sts = C.inner(blk) if C.kind(blk) == "CompoundStmt" else [blk]
+        if not sts or C.kind(sts[-1]) != "ReturnStmt":
+            continue
+        handled = True
+        pred = _cmp_truth(cond, dl)
+        c0 = C.strip(cond)
+        if pred is None and C.kind(c0) == "UnaryOperator" and c0.get("opcode") == "!" and C.ref(_unwrap_int(C.inner(c0)[0])) == dl:
+            pred = lambda x: x == 0
+        if pred is None and C.ref(_unwrap_int(c0)) == dl:
+            pred = lambda x: x != 0
+        covered = None if pred is None else [n for n in range(0, 17) if pred(n) == pol]
+        ret = _success_return(blk)
+        if ret is None:
+            ob("C18.complete", s, False, "a payload-dependent branch returns NULL: inputs the reference accepts are rejected (payload lengths %s of 0..16)" % (covered,), "early NULL return on a payload condition")
+            continue
+        ob("C18.mask-len", s, st.mask_checked, "every return of a result - including shortcuts for special payloads (here payload lengths %s of 0..16) - happens after the mask length test; otherwise masks that are not 4 bytes are accepted for those payloads" % (covered,),
+           "shortcut return before the mask length test")
+        rv = C.inner(ret)[0]
+        empty = C.callee(rv) == "PyBytes_FromStringAndSize" and len(C.call_args(rv)) == 2 and C.int_literal(C.call_args(rv)[1]) == 0
+        is_result = C.ref(rv) == st.role("result") and st.allocated
+        if covered == [0] and (empty or is_result):
+            ob("C18.complete", s, True, "the shortcut covers only the empty payload and returns an empty bytes object", "empty-payload shortcut returns empty bytes")
+        else:
+            raise AnalysisError("websocket_mask: shortcut return for payload lengths %s (line %s) is not modelled" % (covered, C.line(s)))
+    if not handled:
+        raise AnalysisError("websocket_mask: data-dependent branch on the analysed variables (line %s) is not modelled" % C.line(s))
+
+
 def _run_assign(ck, ob, st, s, lhs, rhs):
     lv = C.strip(lhs)
     name = C.ref(lv) if C.kind(lv) == "DeclRefExpr" else None
@@ -293,7 +338,7 @@ def _run_assign(ck, ob, st, s, lhs, rhs):
     dl = st.role("data_len")
     if call == "PyBytes_FromStringAndSize":
         args = C.call_args(rhs)
-        ok = len(args) == 2 and C.is_null_pointer(args[0]) and C.ref(_unwrap_int(args[1])) == dl
+        ok = len(args) == 2 and (C.is_null_pointer(args[0]) or C.ref(args[0]) == st.role("data")) and C.ref(_unwrap_int(args[1])) == dl
         ob("C18.alloc", s, ok and st.sym == "exact", "the result is allocated uninitialised with exactly data_len bytes, before data_len is changed", "result = PyBytes_FromStringAndSize(NULL, <%s>)" % (st.roles.get(C.ref(_unwrap_int(args[1])) if len(args) == 2 else None, "?")))
         st.roles[name] = "result"
         st.allocated = True
@@ -641,7 +686,8 @@ def _c_mutant(old, new, count=1):
             with open(p, "w", encoding="utf-8") as f:
                 f.write(mutated)
             try:
-                tu = C.load(p)
+                tu = C._reduce(C._load(p))
+                C._register_typedefs(tu)
             except AnalysisError as e:
                 raise MutantNotApplicable("mutant does not compile: %s" % e)
         finally:
@@ -658,6 +704,8 @@ def _in(qn, edit, rel=U):
 
 
 MUTANTS = [
+    ("seeded C18-adv1: empty-payload fast path before the mask length test", _c_mutant("    if (mask_len != 4)", "    if (data_len == 0)\n    {\n        return PyBytes_FromStringAndSize(NULL, 0);\n    }\n\n    if (mask_len != 4)"), "C18.mask-len"),
+    ("C: short payloads (< 4 bytes) take a shortcut that skips the mask length test", _c_mutant("    if (mask_len != 4)", "    if (!data_len)\n        return PyBytes_FromStringAndSize(\"\", 0);\n    if (mask_len != 4)"), "C18.mask-len"),
     ("C: 8-byte loop advances data by 4", _c_mutant("data += 8;", "data += 4;"), "C18.stride"),
     ("C: 8-byte loop runs while data_len > 0", _c_mutant("while (data_len >= 8)", "while (data_len > 0)"), "C18.guard"),
     ("C: 4-byte loop runs while data_len >= 2", _c_mutant("while (data_len >= 4)", "while (data_len >= 2)"), "C18.guard"),
@@ -675,6 +723,7 @@ MUTANTS = [
     ("Python reference uses i % 3", _in("_websocket_mask_python", replace_expr(lambda n: isinstance(n, ast.BinOp) and isinstance(n.op, ast.Mod), lambda n: ast.BinOp(left=n.left, op=ast.Mod(), right=ast.Constant(value=3)))), "C18.reference"),
     ("Python reference accepts longer masks", _in("_websocket_mask_python", replace_expr(lambda n: isinstance(n, ast.Compare) and "len(mask)" in ast.unparse(n), lambda n: ast.Compare(left=n.left, ops=[ast.Lt()], comparators=n.comparators))), "C18.reference"),
     ("Python reference skips the last byte", _in("_websocket_mask_python", replace_expr(lambda n: q.is_call(n, "range"), lambda n: parse_expr("range(len(data) - 1)"))), "C18.reference"),
+    ("Python reference: empty-payload fast path before the length test", _in("_websocket_mask_python", lambda root: bool(root.body.insert(1, parse_stmt("if not data:\n    return b''")) or True)), "C18.reference"),
     ("no fallback when the extension is missing", lambda repo: mutate(repo, U, None, lambda root: _drop_fallback(root)), "C18.selection"),
     ("_websocket_mask bound to something else under TORNADO_NO_EXTENSION", lambda repo: mutate(repo, U, None, replace_stmt(lambda st: isinstance(st, ast.Assign) and ast.unparse(st) == "_websocket_mask = _websocket_mask_python", lambda st: [parse_stmt("_websocket_mask = (lambda mask, data: data)")])), "C18.selection"),
 ]
